@@ -166,7 +166,10 @@ def build(repo):
                    ensures=[sub(c, exit_expr, q) for c in common_ens] + list(extra_ens),
                    ledger_inv=common_inv, **kw)
 
-    N1 = ('A-N1 (numeric): the point furthest from xopt, at a distance above a non-negative threshold, is not xopt itself:: knew != KOPT(G.mver)', 'C04')
+    N1 = ('A-N1 (numeric; KNOWN TO BE FALSE as a fact about the code in about 8% of growing runs near a bound, harmless for a deterministic objective - see DESIGN.md 10.9): the point '
+          'furthest from xopt, at a distance above a non-negative threshold, is not xopt itself.  Where it fails, the incumbent\'s stored (unclipped) step lies outside the shifted bounds, '
+          'distances_to_xopt measures it against the clipped xopt, the geometry step then re-evaluates the incumbent\'s own clipped point and a deterministic objective returns the same value:: '
+          'knew != KOPT(G.mver)', 'C04')
     N2 = ('A-N2 (numeric): np.argsort returns distinct slots and the incumbent (distance 0) sorts first; a point that became the incumbent during this loop '
           'sits in a slot already visited:: knew != KOPT(G.mver)', 'C04')
     method('Controller.geometry_step', 'optexit', 'result', params={'knew': 'int'},
